@@ -35,6 +35,9 @@ CFG = {
         "Swat4.C10.facts_batches_atomic",
         "Swat4.C10.facts_no_bare_pipeline_in_writer",
         "Swat4.C10.facts_lock_ttl",
+        "Swat4.C10.facts_batches_atomic_sites",
+        "Swat4.C10.facts_batch_keys",
+        "Swat4.C10.facts_lock_ttl_defs",
     ],
     "shards": (4, 16),
     "nontrivial": _c10_nontrivial,
